@@ -1,6 +1,7 @@
 package checks
 
 import (
+	"reflect"
 	"fmt"
 	"strings"
 
@@ -27,6 +28,11 @@ func nodeIdent(n parsley.Node) string {
 	case ast.NodeList:
 		if len(v) > 0 {
 			return fmt.Sprintf("L%p", &v[0])
+		}
+	default:
+		// the typed literal nodes of text/terminal (*IntegerNode, *NilNode, ...): pointers as well
+		if n != nil && reflect.ValueOf(n).Kind() == reflect.Ptr {
+			return fmt.Sprintf("%p", n)
 		}
 	}
 	return ""
@@ -553,6 +559,9 @@ func c07plan(tier string, seed int64) []run.Job {
 		jobs = append(jobs, run.Job{Family: "sharing", Seed: seed*100000 + 60000 + int64(i), N: per * 6, P: map[string]int{"trims": 0}})
 		jobs = append(jobs, run.Job{Family: "sharing", Seed: seed*100000 + 70000 + int64(i), N: per * 3, P: map[string]int{"trims": 1}})
 		jobs = append(jobs, run.Job{Family: "strings", Seed: seed*100000 + 75000 + int64(i), N: per, P: map[string]int{"inputs": 5}})
+		// the typed terminals (a node type each): one memoized literal handed to plain, left-trimmed and right-trimmed
+		// (any mode) consumers at one position
+		jobs = append(jobs, run.Job{Family: "typed", Seed: seed*100000 + 76000 + int64(i), N: per, P: map[string]int{"inputs": 5, "refonly": 0}})
 	}
 	jobs = append(jobs, enumJobs(maxNodes, false, 4, 300)...)
 	return jobs
